@@ -36,7 +36,7 @@ def target_iter(target, scope):
         iterator = iterate(target)
     except Exception as e:
         raise TypeError('failed to iterate on instance of type %r at %r (got %r)'
-                        % (target.__class__.__name__, Path(*scope[Path]), e))
+                        % (target.__class__.__name__, scope[Path], e))
     return iterator
 
 
